@@ -81,6 +81,15 @@ theorem att_store_faults (m : List Byte) (off : Nat) (d : List Byte) (h : d ≠ 
   have : d.length ≠ 0 := fun h0 => h (List.eq_nil_of_length_eq_zero h0)
   simp [Store.write, this]
 
+/-- `operator==` / `operator!=` read only the exposed bytes: in every reachable state the comparison
+    of two variables does not fault and is the equality of their contents. -/
+theorem compare_no_fault (nvars : Nat) (regs : List (List Byte)) (ops : List Op) (st : State)
+    (hrun : run (init nvars regs) ops = some st) (v w : Nat) (hv : v < nvars) (hw : w < nvars) :
+    ∃ cv cw, contents st v = some cv ∧ contents st w = some cw ∧ equalBufs st v w = some (cv == cw) := by
+  obtain ⟨cv, hcv, _⟩ := refines nvars regs ops st hrun v hv
+  obtain ⟨cw, hcw, _⟩ := refines nvars regs ops st hrun w hw
+  exact ⟨cv, cw, hcv, hcw, by simp [equalBufs, hcv, hcw]⟩
+
 /-- all four statements at once for well-formed histories -/
 theorem buffer_correct (nvars : Nat) (regs : List (List Byte)) (ops : List Op)
     (hwf : ∀ op ∈ ops, WFOp nvars regs op) :
